@@ -52,7 +52,7 @@ func FuzzInterp(f *testing.F) {
 			Ctx: libexec.TxCtx{Version: version, LockTime: locktime, Seq: seq, Amount: 1}, Level: "fuzz"}
 		// cheap pre-pass with the smaller element budget: growth beyond it is not explored here
 		m := c.Ctx.Model(c.Unlock, c.Lock)
-		if r := interp.VerifyScript(c.Unlock, c.Lock, interp.Flags(c.Flags), interp.TxChecker{Tx: m, Idx: 0, Amount: 1}, false, flim); r.BudgetHit {
+		if r := interp.VerifyScript(c.Unlock, c.Lock, interp.Flags(c.Flags), interp.TxChecker{Tx: m, Idx: c.Ctx.Index(), Amount: 1}, false, flim); r.BudgetHit {
 			t.Skip()
 		}
 		pbt.FuzzCheck(t, "C05", "generated", check, c)
